@@ -164,16 +164,26 @@ def h_committer_primary(p1: int, p2: int, p3: int, split: int, storage: str, ban
             sy.commit()
             sch = sy.sch
             st = {}
+            # the reader is a connection with an object cache: in an earlier transaction it has loaded x (not y); it keeps
+            # that copy unless x is reported as invalidated at its next transaction boundary
+            sy.r.poll_invalidations()
+            cached = {X: _val(sy.r.load(X)[0])}
 
             def poll():
                 st['floor'] = sy.done
                 st['inv'] = sy.r.poll_invalidations()
 
+            def cload(o):
+                inv = st['inv']
+                if inv is None or o in inv or o not in cached:
+                    cached[o] = _val(sy.r.load(o)[0])
+                return cached[o]
+
             def lx():
-                st['x'] = _val(sy.r.load(X)[0])
+                st['x'] = cload(X)
 
             def ly():
-                st['y'] = _val(sy.r.load(Y)[0])
+                st['y'] = cload(Y)
             if split == 0:          # poll | load x | load y
                 steps = [(p1, poll), (p2, lx), (p3, ly)]
             elif split == 1:        # poll | load x + load y
@@ -279,6 +289,8 @@ def h_connections(at1: int, at2: int, k: int, storage: str, reuse: bool) -> None
 
 from zverif.harness.c05 import h_abort_reader as _abort_reader  # noqa: E402
 
+from zverif.harness.c03 import h_commit_lock as _commit_order  # noqa: E402
+
 HARNESSES = [
     Harness('reader_primary', h_reader_primary,
             decides='adapter level: with k whole commits injected anywhere into two consecutive reader transactions (poll, loads, '
@@ -312,6 +324,14 @@ HARNESSES = [
             code=['Connection.newTransaction/open/close/setstate/_flush_invalidations', 'DB.open/_returnToPool', 'MVCCAdapterInstance.*'],
             quick=dict(timeout=170, shards=shards(k=[1], storage=['file', 'mapping'], reuse=[False, True])),
             thorough=dict(timeout=1200, shards=shards(k=[1, 2], storage=['file', 'mapping'], reuse=[False, True]))),
+    Harness('commit_order', _commit_order,
+            decides='two committers of different objects, the second one\'s whole commit injected at any yield point of the first one\'s '
+                    'two-phase commit: transaction ids follow the order in which the commits finish and lastTransaction is the newest - '
+                    'what snapshot bounds are computed from (C03 commit_lock, same=False)',
+            symbolic='injection point over lock operations, file-system calls and API boundaries', bounds='2 committers, 1 injected commit',
+            oracle='finish order', code=['BaseStorage.tpc_begin', 'MappingStorage.tpc_begin', 'DemoStorage.tpc_begin'],
+            quick=dict(timeout=100, shards=shards(storage=['file', 'mapping', 'demo'], same=[False])),
+            thorough=dict(timeout=300, shards=shards(storage=['file', 'mapping', 'demo'], same=[False]))),
 ]
 
 MANIFEST = dict(
